@@ -80,6 +80,57 @@ def run(seed, n):
         pats.append((rnd.choice(['', '', '(?x)', '(?i)', '(?ix)\n']) + g, 'grammar'))
     return validate(pats)
 
+def validate_semantics(seed, n):
+    """Engine/Sem.v (through the proved-equivalent executable matcher Engine/Exec.v) against the real
+    regex crate (PikeVM): whole-haystack matching and leftmost search on the implementation's outputs,
+    haystacks = test cases, their prefixes/suffixes, one-character edits, random strings."""
+    rnd = random.Random(seed + 77)
+    cs = casegen.generate(seed + 6, n, allow_flags=[f for f in casegen.FLAGS if f not in ('c', 'E', 'i')])
+    for i, c in enumerate(cs):
+        c['id'] = i
+    impl = runner.run_impl(cs)
+    items = []
+    for c in cs:
+        r = impl.get(c['id'])
+        if not r or r.get('out') is None:
+            continue
+        hs = []
+        for t in c['tcs'][:4]:
+            hs.append(t)
+            if t:
+                hs.append(t[:rnd.randrange(len(t))]); hs.append(t[rnd.randrange(len(t)):])
+                u = list(t); u[rnd.randrange(len(u))] = rnd.choice([97, 98, 49, 32, 0xe9]); hs.append(u)
+                hs.append(t + t[:1]); hs.append([120] + t + [121])
+        hs.append([])
+        items.append((r['out'], hs[:16]))
+    inp = ("\n".join(json.dumps({"p": p, "hs": hs}) for p, hs in items) + "\n").encode()
+    rc, out, err = runner.sh([runner.GREXV, 'match'], inp=inp)
+    real = [json.loads(l) for l in out.splitlines() if l.startswith('{')]
+    inp2 = ("\n".join(",".join(map(str, p)) + "\t" + ";".join(",".join(map(str, h)) for h in hs) for p, hs in items) + "\n").encode()
+    rc2, out2, err2 = runner.sh([runner.DRIVER, '--match', BUILD], inp=inp2)
+    model = out2.splitlines()
+    res = {'patterns': len(items), 'haystacks': 0, 'full_disagree': [], 'find_disagree': [], 'skipped': 0}
+    if rc != 0 or rc2 != 0 or len(real) != len(items) or len(model) != len(items):
+        return {'error': 'semantic validation could not run: %s %s (%d/%d/%d)' % (err[-200:], err2[-200:], len(items), len(real), len(model))}
+    for (p, hs), a, b in zip(items, real, model):
+        if b in ('NONE', 'CI', 'BAD'):
+            res['skipped'] += 1; continue
+        parts = b.split(';')
+        for h, fa, fi, mb in zip(hs, a['full'], a['find'], parts):
+            res['haystacks'] += 1
+            mfull, mfind = mb.split('/')
+            if fa is not None and (mfull == '1') != fa:
+                res['full_disagree'].append({'pattern': ''.join(map(chr, p)), 'haystack': h, 'regex': fa, 'model': mfull})
+            if mfind == '-':
+                if fi is not None:
+                    res['find_disagree'].append({'pattern': ''.join(map(chr, p)), 'haystack': h, 'regex': fi, 'model': None})
+            else:
+                i, js = mfind.split(':')
+                js = [int(x) for x in js.split(',') if x != '']
+                if fi is None or fi[0] != int(i) or fi[1] not in js:
+                    res['find_disagree'].append({'pattern': ''.join(map(chr, p)), 'haystack': h, 'regex': fi, 'model': mfind})
+    return res
+
 if __name__ == '__main__':
     import sys
     r = run(int(sys.argv[1]) if len(sys.argv) > 1 else 1, int(sys.argv[2]) if len(sys.argv) > 2 else 2000)
@@ -88,3 +139,8 @@ if __name__ == '__main__':
     for x in d[:25]:
         print(json.dumps(x, ensure_ascii=True))
     print(len(d), 'disagreements')
+    sres = validate_semantics(int(sys.argv[1]) if len(sys.argv) > 1 else 1, int(sys.argv[2]) if len(sys.argv) > 2 else 2000)
+    fd = sres.pop('full_disagree', []); nd = sres.pop('find_disagree', [])
+    print(json.dumps(sres), len(fd), 'full-match disagreements', len(nd), 'find disagreements')
+    for x in (fd + nd)[:10]:
+        print(json.dumps(x))
